@@ -433,7 +433,7 @@ def cpe_case(rng, rotate_bias):
     for k, i in enumerate(calls):
         args = [str(rng.range(1, 3))]
         for j in range(1, arity[i]):
-            args.append(str(const_for[i][j]) if rng.chance(2, 3) else str(rng.range(0, 9)))
+            args.append(str(const_for[i][j]) if rng.chance(4, 5) else str(rng.range(0, 9)))
         stmts.append(f"call f{i} {arity[i]} " + " ".join(args) + f" c{k}")
         atoms.append(f"c f{i} {arity[i]} " + " ".join(args))
         stmts.append(f"call print 1 c{k} _")
@@ -461,8 +461,8 @@ def cpe_case(rng, rotate_bias):
             elif k < 8:
                 rest = list(rest)                         # forwarded in place
                 for j in range(len(rest)):
-                    if rng.chance(1, 4):
-                        rest[j] = str(rng.range(0, 5))
+                    if rng.chance(1, 3):    # the literal every outer call site passes, or another one
+                        rest[j] = str(const_for[i][j + 1]) if rng.chance(3, 4) else str(rng.range(0, 5))
             else:
                 rest = [rng.pick(ps[1:]) for _ in rest]
             args += rest
@@ -789,6 +789,7 @@ def run_e2e(ctx, cases, label, stats):
 def check_protocol_cases(ctx, cases, label, stats):
     lines = [c["line"] for c in cases]
     impl, model = common.run_pair(PROP, lines)
+    ties, concrete = [], set()
     for i, c in enumerate(cases):
         if len(ctx.violations) >= 3:
             break
@@ -820,19 +821,24 @@ def check_protocol_cases(ctx, cases, label, stats):
                     oracle = None
         else:
             tie, oracle = cpe_compare(c, a, m)
-            if a.startswith("prog ") and any(
-                    len(t) for t in []):
-                pass
         payload = {"protocol": c["kind"], "label": label, "ops": [c["line"]], "impl": a, "model": m}
         if c.get("source"):
             payload["source"] = c["source"]
         if oracle:
+            concrete.add(c["kind"])
             ctx.violation(f"the real {c['kind']} stage changes behaviour: {oracle}", payload)
         elif tie:
             payload["broken"] = (f"correspondence `{c['kind']}` (lean/SamVerif/Model vs crates/samlang-compiler): "
                                  "the theorems of Props/C01.lean no longer speak about this code")
-            # search: does the implementation-side oracle fail on this very input?
-            ctx.violation(f"model/implementation disagreement on protocol {c['kind']}: {tie}", payload, no_input=True)
+            ties.append((c["kind"], tie, payload))
+    # a broken tie is reported on its own only when the search (the implementation-side oracle over the
+    # whole batch) found no concrete failing input for that stage
+    seen = set()
+    for kind, tie, payload in ties:
+        if kind in concrete or kind in seen:
+            continue
+        seen.add(kind)
+        ctx.violation(f"model/implementation disagreement on protocol {kind}: {tie}", payload, no_input=True)
 
 
 PROBES_F1 = ["class Nat(Z, S(Nat)) {\n  function toInt(n: Nat): int = match n { Z -> 0, S(m) -> 1 + Nat.toInt(m) }\n}\n"
@@ -858,7 +864,7 @@ def run(ctx):
         data = json.load(open(os.path.join(cdir, f)))
         if data.get("kind") == "e2e" and have_exec:
             run_e2e(ctx, [data], f"corpus/{f}", stats)
-    n_layout, n_tail, n_cpe, n_e2e = ctx.scale((120, 260, 160, 48), (2500, 6000, 4000, 900))
+    n_layout, n_tail, n_cpe, n_e2e = ctx.scale((500, 1200, 700, 200), (6000, 15000, 9000, 2500))
     # protocol cases
     cases = [layout_case(rng.fork()) for _ in range(n_layout)]
     cases += [tailrec_case(rng.fork(), allow_backward=(i % 5 == 0)) for i in range(n_tail)]
